@@ -373,8 +373,47 @@ def build_unit_text(unit, xdir, specs, report):
               '-DCAT_NOTHROW_MOVE=%d' % (1 if facts['nothrow_move_construct'] and facts['nothrow_move_assign'] else 0)]
     return body, cmap2, cflags
 
+def run_static_facts(unit, variant, timeout):
+    """type-level facts evaluated by the real compiler on the real headers (trait values ...): each printed line
+    '<name> <claimed> <expected>' becomes one assertion of a C unit that the verifier discharges"""
+    src = os.path.join(VERIF, unit['static_facts'])
+    key = sha(open(src).read(), repo_fingerprint(), variant, 'static-v2')[:24]
+    udir = os.path.join(CACHE, 'u_' + key)
+    resf = os.path.join(udir, 'result.json')
+    if os.path.exists(resf):
+        r = json.load(open(resf)); r['cached'] = True
+        return r
+    os.makedirs(udir, exist_ok=True)
+    t0 = time.time()
+    res = {'unit': unit['id'], 'variant': variant, 'dir': udir, 'cached': False}
+    def fail(msg):
+        res.update(status='infra', error=msg, seconds=time.time() - t0)
+        return res
+    rc, out, err, dt = run(['g++', '-std=c++17', '-DAMC_NONSTD_FEATURES', '-I' + os.path.join(REPO, 'include'), src, '-o', os.path.join(udir, 'facts')], timeout=300, mem_gb=8)
+    if rc != 0:
+        return fail('the static facts program does not compile against the current headers: ' + (out + err)[-1200:])
+    rc, out, err, dt = run([os.path.join(udir, 'facts')], timeout=60)
+    lines = [l.split() for l in out.strip().split('\n') if l.strip()]
+    if rc != 0 or not lines or any(len(l) != 3 for l in lines):
+        return fail('the static facts program failed (rc=%s)' % rc)
+    body = ['void harness(void) {']
+    for name, claimed, expected in lines:
+        body.append('  __CPROVER_assert(%s == %s, "%s: %s claims to be trivially relocatable exactly when its parts are (claimed %s, parts %s)");' % (
+            claimed, expected, ' '.join(unit['props']), name.replace('"', ''), claimed, expected))
+    if variant.startswith('vacuity'):
+        body.append('  __CPROVER_assert(0, "VAC: reachable");')
+    body.append('}')
+    open(os.path.join(udir, 'unit.c'), 'w').write('\n'.join(body) + '\n')
+    rc, out, err, dt = run(['goto-cc', '--function', 'harness', 'unit.c', '-o', 'unit.gb'], cwd=udir, timeout=120)
+    if rc != 0:
+        return fail('goto-cc: ' + (out + err)[-800:])
+    rc, out, err, dt = run(['cbmc', 'unit.gb', '--json-ui'], cwd=udir, timeout=timeout, mem_gb=8)
+    return finish_cbmc(unit, udir, res, resf, rc, out, err, timeout, {'ordinals': {}, 'fnprops': {}}, t0)
+
 def run_unit(unit, xdir, specs, report, variant='main', extra_defs=(), log=print, timeout=600):
     """returns dict: {status: ok|infra, obligations: [...], seconds, cached}"""
+    if unit.get('static_facts'):
+        return run_static_facts(unit, variant, timeout)
     body, cmap, cflags = build_unit_text(unit, xdir, specs, report)
     # only the ghost headers this unit can include enter its cache key
     gfiles = ['l0.h', 'l0_post.h']
@@ -465,7 +504,9 @@ def finish_cbmc(unit, udir, res, resf, rc, out, err, timeout, cmap, t0):
         o = {'name': r['property'], 'desc': desc, 'status': r['status'], 'file': sl.get('file', ''), 'line': line,
              'function': sl.get('function', ''), 'tags': [], 'label': ''}
         tags = re.match(r'^((?:C\d\d ?)+):', desc)
-        if tags:
+        if desc.startswith('VAC:'):
+            o['tags'] = ['VAC']; o['label'] = 'vacuity guard: normal exit reachable'
+        elif tags:
             o['tags'] = tags.group(1).split()
         elif 'ensures clause' in desc or 'requires clause' in desc or 'loop invariant' in desc or 'decreases' in desc or '.loop_' in r['property']:
             c = None
